@@ -138,7 +138,9 @@ class OsuMap(Map[OsuNoteList, OsuHitList, OsuHoldList, OsuBpmList], OsuMapMeta):
         """Changes the rate of the map"""
         osu = super(OsuMap, self.deepcopy()).rate(by)
         osu.samples.offset /= by
-        osu.preview_time /= by
+        # -1 means there's no preview point, it's not a time
+        if osu.preview_time >= 0:
+            osu.preview_time /= by
 
         return osu
 
